@@ -40,7 +40,7 @@ SIN = lambda a: ('un', 'sin', a)
 def generate(seeds=(1, 2, 3), tier='quick'):
     import neurodiffeq.function_basis as FB
     from neurodiffeq import operators as ops
-    g = GenFile(PID)
+    g = GenFile(PID, imports=['NdeVerif.Proofs.C17F'])
     stats = {}
     TH, PH = ('var', 0), ('var', 1)
     hy = [('hs', 'Real.sin th ≠ 0')]
@@ -134,6 +134,11 @@ def generate(seeds=(1, 2, 3), tier='quick'):
             g.add_def(f'fourier{md}_c{k}', t, f'traced: RealFourierSeries({md}) column {k}')
             g.thm_eq(f'fourier{md}_c{k}_eq', ['ph'], ['ph'], f'fourier{md}_c{k}', t, want[k],
                      what=f'RealFourierSeries({md}) column {k} is the documented term (1/2, sin φ, cos φ, sin 2φ, …)')
+            stmt_ = f'Ex.eval I (env [ph]) fourier{md}_c{k} = NdeVerif.C17F.term {k} ph'
+            g.raw(f'theorem fourier{md}_c{k}_is_term (I : Interp) (ph : ℝ) :\n    {stmt_} := by\n'
+                  f'  rw [fourier{md}_c{k}_eq I ph]\n  simp [NdeVerif.C17F.term, NdeVerif.C17F.deg]\n',
+                  [Obligation(f'fourier{md}_c{k}_is_term', 'model', stmt_, f'column {k} of the traced RealFourierSeries({md}) is column {k} of the hand model '
+                              'NdeVerif.C17F.term (whose Laplacian theorem holds for every max_degree)')])
         K = 2 * md + 1
 
         def scen_op(w, md=md, K=K):
@@ -156,6 +161,29 @@ def generate(seeds=(1, 2, 3), tier='quick'):
         g.thm_eq(f'flap{md}_eq_polar_laplacian', ['r', 'ph'], ['r', 'ph'], f'flap{md}', t, polar, hyps=[('hr', 'r ≠ 0')],
                  rhs_name=f'flap{md}_ref', heartbeats=4000000,
                  what=f'FourierLaplacian({md}) = u_rr + u_r/r + u_φφ/r² of u = sum_i R_i(r) F_i(φ)')
+        # the traced operator is the hand model NdeVerif.C17F.fourierLap with K columns (theorem fourierLap_eq_polar: every K)
+        from ..calc import Calc, norm_inv
+        want_cols = [('rat', 1, 2)]
+        for d in range(1, md + 1):
+            want_cols += [('un', 'sin', mul(('nat', d), ('var', 1))), ('un', 'cos', mul(('nat', d), ('var', 1)))]
+        sym = lambda k: sw.ctx.syms.index(f'R.{k}' if K > 1 else 'R')
+        Rk = lambda k, o: ('app', sym(k), (o,), (rr,))
+        terms_ = [mul(add(add(mul(Rk(k, 1), ('inv', rr)), Rk(k, 2)), mul(mul(neg(('nat', ((k + 1) // 2) ** 2)), Rk(k, 0)), ('inv', ('pow', rr, 2)))), want_cols[k])
+                  for k in range(K)]
+        form = add(*terms_)
+        g.thm_eq(f'flap{md}_form', ['r', 'ph'], ['r', 'ph'], f'flap{md}', t, form, hyps=[('hr', 'r ≠ 0')], heartbeats=4000000,
+                 what=f'FourierLaplacian({md}) written out column by column')
+        g.obligations = [o for o in g.obligations if o.name != f'flap{md}_form']
+        calc = Calc(['r', 'ph'])
+        txt = lambda o: '[' + ', '.join(calc.poly(norm_inv(X.resolve(Rk(k, o))))[1] for k in range(K)) + ']'
+        stmt_ = (f'Ex.eval I (env [r, ph]) flap{md} = NdeVerif.C17F.fourierLap {K} (fun k => {txt(0)}.getD k 0) (fun k => {txt(1)}.getD k 0) '
+                 f'(fun k => {txt(2)}.getD k 0) r ph')
+        g.raw(f'set_option maxHeartbeats 4000000 in\ntheorem flap{md}_is_model (I : Interp) (r ph : ℝ) (hr : r ≠ 0) :\n    {stmt_} := by\n'
+              f'  rw [flap{md}_form I r ph hr]\n'
+              '  simp [NdeVerif.C17F.fourierLap, Finset.sum_range_succ, NdeVerif.C17F.term, NdeVerif.C17F.coeff, NdeVerif.C17F.deg, div_eq_mul_inv]\n'
+              '  try ring\n',
+              [Obligation(f'flap{md}_is_model', 'model', stmt_, f'the traced FourierLaplacian({md}) is NdeVerif.C17F.fourierLap with {K} columns; '
+                          'fourierLap_eq_polar / expansion_derivs prove the polar-Laplacian identity for every number of columns')])
     legendre_part(g, stats, FB, seeds, tier)
     zonal_laplacian_part(g, stats, FB, ops, seeds, tier)
     # ---- orthogonality and common normalisation of the 25 harmonics (own modules, see C17orth.py) -------------------
@@ -474,6 +502,9 @@ def search(seed, tier):
 def runtime_checks():
     """the numeric observations of the search are cheap and deterministic: they run on every check, not only after a broken proof"""
     return search(1, 'quick')
+
+
+STATIC = [('NdeVerif.Proofs.C17F', 'NdeVerif.C17F', ['hasDerivAt_term', 'hasDerivAt_termD', 'expansion_derivs', 'fourierLap_eq_polar'])]
 
 
 def check(tier, seed):
